@@ -3,9 +3,10 @@
 //   sqrt exp log log2 log10 log1p pow sin cos tan asin acos atan atan2 sinh cosh tanh asinh acosh atanh erf tgamma
 //   lgamma hypot (float and double, the f-suffixed spellings, the integral overloads, pow(x, int), hypot(x, y, z))
 //   must
-//     (1) stay within the FIXED per-function bound of /verif/cmath_bounds.json (ulps of the libm result; the bounds were
-//         derived once from the pinned tree as 8 x the largest error observed on the stated domain, at least 4 ulp, and
-//         are compiled in through gen/C16_bounds.py - nothing is measured or adapted at run time),
+//     (1) stay within the FIXED per-function bound of /verif/cmath_bounds.json (ulps of the libm result; the bounds are
+//         8 x the largest error observed on the stated domain, at least 4 ulp - first derived from the pinned tree, then
+//         re-derived once from the repaired tree, see "derived_from" in the file - and are compiled in through
+//         gen/C16_bounds.py: nothing is measured or adapted at run time),
 //     (2) return NaN / +-inf / +-0 exactly where C (Annex F) prescribes it: the special-value tables below are compared
 //         with libm by class and sign, and no NaN/inf may appear where libm returns a finite number on the domain.
 //   Error measure: |etl - libm| / ulp_T(max(|libm|, abs_floor)); abs_floor is 0 (pure ulp error) except for lgamma,
